@@ -444,6 +444,9 @@ func RunHistory(h History, bin string, orc Oracles) (*Observation, error) {
 			obs.Log = append(obs.Log, fmt.Sprintf("#%d wipe cas + workspace outputs", i))
 			obs.Classes["fault:wipe-cas"] = true
 		case strings.HasPrefix(st.Kind, "perturb-"):
+			if sbMin != nil {
+				_ = sbMin.Perturb(&w, st) // the same workspace perturbation in the minimal-mode sandbox
+			}
 			if d := sb.Perturb(&w, st); d != "" {
 				obs.Log = append(obs.Log, fmt.Sprintf("#%d %s", i, d))
 				obs.Classes[st.Kind] = true
